@@ -177,6 +177,7 @@ func scenINV(s *sched.Sim, cfg Config, res *Result) {
 		nErr    int
 		partial bool
 		active  bool
+		sameMsg bool
 	}
 	env.net.FaultFor = func(m *simnet.Message) *simnet.Fault {
 		if !target.active || !strings.HasPrefix(m.Tag, target.prefix) {
@@ -199,10 +200,17 @@ func scenINV(s *sched.Sim, cfg Config, res *Result) {
 			for _, idx := range idxs {
 				var es []interface{}
 				for e := 0; e < target.nErr; e++ {
+					msg := fmt.Sprintf("svc-error-%s-%d-%d-%d", target.prefix, target.ordinal, idx, e)
+					pth := []interface{}{"root", float64(idx), "leaf"}
+					if target.sameMsg {
+						// several errors that differ only in their extensions
+						msg = "svc-error-same-message"
+						pth = []interface{}{"root", "leaf"}
+					}
 					in := injected{
-						msg:  fmt.Sprintf("svc-error-%s-%d-%d-%d", target.prefix, target.ordinal, idx, e),
-						ext:  map[string]interface{}{"code": fmt.Sprintf("E%d", e), "nested": map[string]interface{}{"list": []interface{}{1.0, "two", map[string]interface{}{"k": true}}}},
-						path: []interface{}{"root", float64(idx), "leaf"},
+						msg:  msg,
+						ext:  map[string]interface{}{"code": fmt.Sprintf("E%d-%d", idx, e), "nested": map[string]interface{}{"list": []interface{}{1.0, "two", map[string]interface{}{"k": true}}}},
+						path: pth,
 					}
 					inj = append(inj, in)
 					em := map[string]interface{}{"message": in.msg, "extensions": in.ext, "path": in.path}
@@ -274,6 +282,7 @@ func scenINV(s *sched.Sim, cfg Config, res *Result) {
 					tag := fmt.Sprintf("e%d", passCases)
 					inj = nil
 					target.prefix, target.ordinal, target.count, target.nErr, target.partial, target.active = tag+"#", site, 0, ne, partial, true
+					target.sameMsg = ne > 1 && passCases%3 == 0
 					cr := env.post(tag, []clientReq{{Query: op.Text, Variables: op.Vars, OperationName: op.OpName}}, false)
 					target.active = false
 					if len(inj) == 0 {
@@ -285,11 +294,14 @@ func scenINV(s *sched.Sim, cfg Config, res *Result) {
 						res.Violate(prop+"/malformed-response", "response with service errors is malformed: %s", clipStr(string(cr.Raw), 200))
 						continue
 					}
+					usedIdx := map[int]bool{}
 					for _, in := range inj {
 						found := false
-						for _, ce := range cr.Single.Errors {
-							if ce["message"] == in.msg && gql.Diff("ext", in.ext, ce["extensions"]) == "" && gql.Diff("path", in.path, ce["path"]) == "" {
+						for ci, ce := range cr.Single.Errors {
+							if !usedIdx[ci] && ce["message"] == in.msg && gql.Diff("ext", in.ext, ce["extensions"]) == "" && gql.Diff("path", in.path, ce["path"]) == "" {
 								found = true
+								usedIdx[ci] = true
+								break
 							}
 						}
 						if !found {
